@@ -326,6 +326,19 @@ def run_case(case, ctx):
                     hobj = nd.Hessdiag(f, method=method, order=case['hd_order'], step=D.build_step(nd, case['step']),
                                        full_output=True)
                 hd, dinfo = hobj(xin)
+                if case['seed'] % 3 == 0 and case['step']['kind'] != 'default':
+                    # (with the default steps the kind of generator is chosen from the method at construction; compared for given steps)
+                    # ... and what it returns is what a new object of this configuration returns (value and estimate, bit for bit):
+                    # nothing of the method used before is left in the rules
+                    hd_f, dinfo_f = nd.Hessdiag(f, method=method, order=case['hd_order'], step=D.build_step(nd, case['step']),
+                                                full_output=True)(np.array(xin, copy=True) if isinstance(xin, np.ndarray) else xin)
+                    ctx.count('hessdiag_after_method_switch_compared_with_a_new_object')
+                    if np.asarray(hd).tobytes() != np.asarray(hd_f).tobytes() or \
+                            np.asarray(dinfo.error_estimate).tobytes() != np.asarray(dinfo_f.error_estimate).tobytes():
+                        ctx.reject('hessdiag_depends_on_the_method_used_before', observed=[np.ravel(hd)[:3], np.ravel(dinfo.error_estimate)[:3]],
+                                   expected=[np.ravel(hd_f)[:3], np.ravel(dinfo_f.error_estimate)[:3]], method=method, variant=variant,
+                                   detail=dict(method_before=m0, order=case['hd_order'], step=case['step']))
+                        return
         except Exception as exc:
             ctx.reject('hessdiag_raised', observed='%s: %s' % (type(exc).__name__, str(exc)[:150]),
                        method=method, variant=variant, n=n, order=case['hd_order'])
